@@ -2,6 +2,7 @@ pub mod checks;
 pub mod enumerate;
 pub mod ev;
 pub mod geo;
+pub mod race_ops;
 pub mod refcodec;
 pub mod refgeom;
 pub mod subj;
